@@ -342,7 +342,8 @@ class Client:
             self.errcode = m.group(1).strip(b"()")
         else:
             self.errcode = b""
-        self.errmsg = m.group(2).strip(b'"')
+        # the text is a quoted string: drop the quotes, undo the escaping of '"' and '\\'
+        self.errmsg = m.group(2)[1:-1].replace(b'\\"', b'"').replace(b"\\\\", b"\\")
 
     def _plain_authentication(
         self, login: bytes, password: bytes, authz_id: bytes = b""
